@@ -13,7 +13,7 @@ from simdag.gen.script import PhaseS, Script
 
 UT_TEMPS = ["k", "k2", "y2", "ytmp", "w", "K", "yy"]
 SC_TEMPS = ["s", "r", "q", "c", "S", "tt", "e"]
-ARR_TEMPS = ["a", "b", "arr"]
+ARR_TEMPS = ["a", "b", "arr", "vec", "c2"]
 DYADIC = [0.5, 2.0, 1.5, -0.5, 0.25, -1.0, 3.0, -2.0]
 SMALL = [1.0, 2.0, 0.5, 3.0, -1.0, 0.0, 1.5]
 
@@ -148,12 +148,26 @@ class FortranGen:
             return Logic(self.pick(["and", "or"], "lop"), [self.g_cond(D, depth - 1), self.g_cond(D, depth - 1)])
         return Not(self.g_cond(D, depth - 1))
 
-    def g_ut(self, D, depth, avoid=None):
+    def g_ut(self, D, depth, avoid=None, calls=False):
         """user-type valued expression with at least one typed term; never a bare variable."""
         t = self.tape
         uts = [u for u in self.of(D, "ut")]
         a = Var(self.pick(uts, "u1"))
-        k = t.weighted([3, 3, 1.5 if depth > 0 else 0, 0.7], "ut")
+        # (nested calls only on the right-hand side of assignments: the Fortran pipeline isolates calls
+        # out of assignments, not out of yields)
+        k = t.weighted([3, 3, 1.5 if depth > 0 else 0, 0.7, (2.5 if self.c12_bias else 1.0) if calls else 0], "ut")
+        if k == 4:
+            # a right-hand-side call inside an expression (the Fortran pipeline isolates it into a
+            # statement of its own, with an id that repeats in every phase)
+            fn = self.pick(["<func>f", "<func>g"], "nfn")
+            self.used_funcs.add(fn)
+            call = Call(fn, [Var("<t>"), a], [])
+            form = t.draw(3, "nform")
+            if form == 0:
+                return Bin("*", Const(self.pick(DYADIC, "fc")), call)
+            if form == 1:
+                return Bin("+", call, Var(self.pick(uts, "u2")))
+            return Bin("+", Var(self.pick(uts, "u2")), Bin("*", self.g_scal_factor(D), call))
         if k == 0:
             sc = self.g_scal_factor(D)
             return Bin("+", a, Bin("*", sc, Var(self.pick(uts, "u2"))))
@@ -251,14 +265,27 @@ class FortranGen:
             kws = []
             if FFUNCS[fn][0] == 2:
                 z = Var(self.pick(srcs, "arg2"))
-                if t.chance(0.4, "kw"):
+                kwform = t.weighted([3, 2, 1, 1], "kw")
+                if kwform == 1:
                     kws.append(("z", z))
+                elif kwform == 2:
+                    # both by keyword, written in non-alphabetical order
+                    kws.extend([("z", z), ("y", args.pop())])
+                elif kwform == 3:
+                    kws.extend([("y", args.pop()), ("z", z)])
                 else:
                     args.append(z)
             elif t.chance(0.2, "kwy"):
                 kws.append(("y", args.pop()))
             D.add(tgt)
-            return ("call", (tgt,), Call(fn, args, kws), self.mode())
+            call = ("call", (tgt,), Call(fn, args, kws), self.mode())
+            pers = [u for u in uts if u.startswith("<state>")]
+            if pers and t.chance(0.5, "useresult"):
+                # the result flows into persistent state right away (a wrong call is then observable)
+                p_ = self.pick(pers, "usep")
+                return [call, ("assign", p_, None, Bin("+", Var(p_), Bin("*", self.g_scal_factor(D), Var(tgt))),
+                               [], self.mode())]
+            return call
         if k == 1:
             pers = [u for u in uts if u.startswith("<state>")]
             if pers and t.chance(0.6, "topers"):
@@ -267,7 +294,7 @@ class FortranGen:
                 tgt = self.new_name(UT_TEMPS, "ut", D)
                 if tgt is None:
                     return None
-            e = self.g_ut(D, 1)
+            e = self.g_ut(D, 1, calls=True)
             D.add(tgt)
             return ("assign", tgt, None, e, [], self.mode())
         if k == 2:
@@ -349,7 +376,7 @@ class FortranGen:
                 # something allocated right before the early exit
                 pre = self.gen_op(0, set(D), 0)     # defined only inside the guarded body
                 if pre is not None:
-                    body = [pre, term]
+                    body = (pre if isinstance(pre, list) else [pre]) + [term]
             return ("if", ("1", c, self.mode()), body, None)
         if k == 9:
             cands = [n for n in SC_TEMPS if self.cls.get(n, "inexact") == "inexact"]
@@ -483,13 +510,30 @@ class FortranGen:
             D.add(B)
             e = [Bin("+", Var(B), Var(B)), Bin("*", Const(2.0), Var(B)),
                  Bin("-", Var(B), Bin("*", Var("<dt>"), Var(B)))][t.draw(3, "shrform")]
-            return [("call", (A,), Call("<builtin>array", [Const(n1)]), self.mode()),
-                    ("assign", A, Var("i"), Bin("+", Var("i"), Const(0.5)), [("i", Const(0), Const(n1))], self.mode()),
-                    ("call", (B,), Call("<builtin>array", [Const(n2)]), self.mode()),
-                    ("assign", B, Var("i"), Bin("*", Var("i"), Const(1.5)), [("i", Const(0), Const(n2))], self.mode()),
-                    ("assign", A, None, e, [], self.mode()),
-                    ("assign", "<state>r", None,
-                     Bin("+", Sub(A, Const(0)), Bin("*", Const(2.0), Sub(A, Const(n2 - 1)))), [], self.mode())]
+            out = [("call", (A,), Call("<builtin>array", [Const(n1)]), self.mode()),
+                   ("assign", A, Var("i"), Bin("+", Var("i"), Const(0.5)), [("i", Const(0), Const(n1))], self.mode()),
+                   ("call", (B,), Call("<builtin>array", [Const(n2)]), self.mode()),
+                   ("assign", B, Var("i"), Bin("*", Var("i"), Const(1.5)), [("i", Const(0), Const(n2))], self.mode()),
+                   ("assign", A, None, e, [], self.mode())]
+            last = A
+            if len(free) >= 4 and t.chance(0.5, "chain"):
+                # a chain of whole-array assignments to names that were never allocated: their kind is
+                # known only through the previous link, and a constant term is known before that
+                C, E = free[2], free[3]
+                self.types[C] = ("arr", n2)
+                self.types[E] = ("arr", n2)
+                D.add(C)
+                D.add(E)
+                e2 = [Bin("+", Var(A), Const(0.5)), Bin("+", Const(1.0), Var(A)),
+                      Bin("-", Var(A), Bin("*", Var("<dt>"), Var(A)))][t.draw(3, "chainform")]
+                e3 = [Bin("*", Const(2.0), Var(C)), Bin("+", Var(C), Var(C)),
+                      Bin("+", Var(C), Const(1.0))][t.draw(3, "chainform2")]
+                out.append(("assign", C, None, e2, [], self.mode()))
+                out.append(("assign", E, None, e3, [], self.mode()))
+                last = E
+            out.append(("assign", "<state>r", None,
+                        Bin("+", Sub(last, Const(0)), Bin("*", Const(2.0), Sub(last, Const(n2 - 1)))), [], self.mode()))
+            return out
         if k == 16:
             # two conditional expressions with the *same* condition, and a write to the condition's
             # variable between them: the condition must be evaluated twice
@@ -606,6 +650,7 @@ class FortranGen:
         if "<state>r" in self.types:
             self.cls["<state>r"] = "inexact"
         persistent = set(self.types)
+        prev_core = None
         for pi, name in enumerate(names):
             with t.span("phase"):
                 D = set(persistent)
@@ -615,7 +660,21 @@ class FortranGen:
                 ops = []
                 if t.chance(0.8, "count"):
                     ops.append(("assign", "<state>n", None, Bin("+", Var("<state>n"), Const(1.0)), [], self.mode()))
-                ops += self.gen_block(D, 2, 1 + t.draw(self.max_ops, "nops"))
+                if pi > 0 and prev_core is not None and t.chance(0.45 if self.c12_bias else 0.25, "twinphase"):
+                    # twin of the previous phase: the same statements under the same local names (and so
+                    # the same generated statement ids and temporaries in both phases), followed by further
+                    # reads of its user-type temporaries -- what is a last use in one phase is not in the other
+                    core = _clone_ops(prev_core[0])
+                    D = set(prev_core[1])
+                    for u in sorted(D):
+                        if self.types.get(u) == "ut" and not u.startswith("<") and t.chance(0.6, "twinuse"):
+                            core.append(("assign", "<state>y", None,
+                                         Bin("+", Var("<state>y"), Bin("*", Const(0.5), Var(u))), [], self.mode()))
+                    self.n_twin = getattr(self, "n_twin", 0) + 1
+                else:
+                    core = self.gen_block(D, 2, 1 + t.draw(self.max_ops, "nops"))
+                prev_core = (core, set(D))
+                ops += core
                 # typing anchor and time advance
                 if not any(op[0] == "call" and op[2].fn in FFUNCS for op in _flat(ops)) or t.chance(0.5, "anchor"):
                     self.used_funcs.add("<func>f")
@@ -671,6 +730,7 @@ class FortranGen:
         sc.N = self.N
         sc.n_shrink = self.n_shrink
         sc.n_condpair = self.n_condpair
+        sc.n_twin = getattr(self, "n_twin", 0)
         sc.struct = self.struct
         sc.M = self.M
         sc.has_v = any(("<state>v" in (op[1],) if op[0] == "assign" else False) or
@@ -681,6 +741,16 @@ class FortranGen:
             sc.funcs = sorted(set(sc.funcs) | {"<func>fv"})
         sc.exact = set(self.exact)
         return sc
+
+
+def _clone_ops(ops):
+    out = []
+    for op in ops:
+        if op[0] == "if":
+            out.append(("if", op[1], _clone_ops(op[2]), _clone_ops(op[3]) if op[3] else op[3]))
+        else:
+            out.append(tuple(list(op)))
+    return out
 
 
 def _flat(ops):
